@@ -20,7 +20,7 @@ def plan(tier, seed):
   # not be run to the end and triaged on the unchanged tree in the time available (DESIGN.md
   # section 10).
   fams = [seed] if tier == 'quick' else [seed, seed + 1, seed + 2, seed + 3]
-  return [{'hseed': f * 100003 + i, 'steps': 14} for f in fams for i in range(16)] + \
+  return [{'witness': 'self_lookup_cycle'}] + [{'hseed': f * 100003 + i, 'steps': 14} for f in fams for i in range(16)] + \
          [{'hseed': f * 100003 + 50000 + i, 'steps': 14, 'stream': 'B'} for f in fams for i in range(6)]
 
 # Stream B (see props/C02.py): bundles in which several actions touch the same rows / cells / columns, so that a
@@ -28,8 +28,41 @@ def plan(tier, seed):
 WEIGHTS_B = dict(WEIGHTS, replace_data=1.5, upsert=2)
 FLAGS_B = {'bundle_multi': 0.5, 'patterns': 0.4, 'invalid_off': ('short_bulk',)}
 
+def witness_self_lookup_cycle(acc):
+  """Open finding (consequence of C05/cycle_detection_incremental_vs_scratch, see props/C01.py): B looks records
+  up by its own column; rows added after the formula was set hold values, a full recalculation gives
+  CircularRefError everywhere. A bundle that converts B to data and then fails is reverted by making B a formula
+  again, which recalculates every row: the failed bundle leaves B[3], B[4] changed."""
+  from vlib.client import EngineProc
+  from vlib import snapshot
+  from props import C01
+  with EngineProc() as p:
+    p.init_doc()
+    p.apply([['AddTable', 'T', [{'id': 'K', 'type': 'Int', 'isFormula': False}]]])
+    p.apply([['BulkAddRecord', 'T', [None, None], {'K': [1, 2]}]])
+    p.apply([['AddColumn', 'T', 'B', {'isFormula': True, 'type': 'Text', 'formula': 'T.lookupOne(B=$K).K'}]])
+    p.apply([['BulkAddRecord', 'T', [None, None], {'K': [1, 2]}]])
+    S0 = snapshot.take(p)
+    r, err = p.try_apply([['ModifyColumn', 'T', 'B', {'isFormula': False}], ['AddRecord', 'NoSuchTable', None, {}]])
+    acc.count('witness_runs')
+    if err is None:
+      acc.inconclusive.append('witness bundle did not fail')
+      return
+    p.apply([['Calculate']])
+    S2 = snapshot.take(p)
+    d = snapshot.diff(S0, S2)
+    if C01.only_cells_of(d, 'T', 'B') and C01.classify('undo_diff', None, d, S0, S2):
+      acc.violation('cycle_detection_incremental_vs_scratch', 'witness: failed bundle [ModifyColumn B {isFormula: false}, '
+                    'AddRecord NoSuchTable] left B recalculated from scratch: %s' % d[:2], {'diff': d})
+    elif d:
+      acc.violation('trace:natural', 'witness history: failed bundle left a trace: %s' % d[:3], {'diff': d})
+
+
 def run_shard(spec, acc):
-  nt = histories.NoTraceMonitor()
+  if spec.get('witness'):
+    return globals()['witness_' + spec['witness']](acc)
+  from props import C01
+  nt = histories.NoTraceMonitor(classify=C01.classify)
   # Every position of bundles with up to 12 positions, a seeded stride through longer ones (both
   # tiers: enumerating every position of the long bundles as well did not finish on the unchanged
   # tree within the session's budget, so it is not offered as a tier).
